@@ -4,7 +4,7 @@ well-formedness on hostile documents."""
 import random
 from ..core import Part, pmap, NCPU, server_bin
 from ..client import ServerDied, Timeout, FrameError
-from .. import gen, feat, layout, lspmodel
+from .. import gen, feat, layout, lspmodel, reflex
 from . import c02gen
 
 
@@ -19,6 +19,43 @@ def wellformed(part, res, text, sc):
             part.fail("folding ranges overlap or are out of order: %r after a range ending at line %d" % (r, prev_end), sc); return False
         prev_end = e
     return True
+
+
+def layout_edits(part, sess, P, text, rng):
+    """the same program after incremental white-space / comment insertions at line ends (columns beyond the line end are clamped):
+    the procedures keep their tokens, their lines move"""
+    sig0 = reflex.significant(reflex.lex(text))
+    cur = text; changes = []
+    for _ in range(rng.randint(1, 3)):
+        spans = lspmodel.line_spans(cur)
+        ln = rng.randrange(len(spans)); a, e = spans[ln][0], spans[ln][1]
+        col = len(cur[a:e].encode("utf-16-le")) // 2 + rng.choice([0, 0, 1, 7, 80, 100000])
+        eol = "\r\n" if "\r\n" in cur else "\n"
+        ch = {"range": {"start": {"line": ln, "character": col}, "end": {"line": ln, "character": col + rng.choice([0, 0, 3])}},
+              "text": rng.choice([" ", eol, eol + eol, "\t", " // c" + eol, eol + "  "])}
+        nxt = lspmodel.apply_change(cur, ch)
+        if reflex.significant(reflex.lex(nxt)) != sig0: continue      # (the line ended inside a comment or literal: not a layout edit)
+        cur = nxt; changes.append(ch)
+    if not changes: return
+    sc = {"kind": "extents-after-edits", "text": text, "changes": changes}
+    lx = [x for x in reflex.lex(cur) if x[0] not in ("comment", "eof")]
+    sig = [t for t in P.toks if t.kind != "comment"]
+    if len(lx) != len(sig): return
+    at = {t.uid: x for t, x in zip(sig, lx)}
+    T = layout.Text(cur)
+    want = [(T.pos(at[p.node.parts[0].uid][2])[0], T.pos(at[p.rcurly.uid][3])[0]) for p in sorted(P.procs, key=lambda p: p.node.a)]
+    sc["expected"] = want
+    try:
+        uri = sess.open(text, "c17e_")
+        for i, ch in enumerate(changes): sess.server().change(uri, [ch], i + 1)
+        res = sess.result("textDocument/foldingRange", {"textDocument": {"uri": uri}}); part.ev()
+        sess.close(uri)
+        if not wellformed(part, res, cur, sc): return
+        got = [(r["startLine"], r["endLine"]) for r in res]
+        if got != want: part.fail("after %d layout-only incremental change(s) the folding ranges are %r, the procedure extents in the client's text are %r" % (len(changes), got, want), sc)
+        else: part.cnt("documents_after_layout_edits")
+    except (ServerDied, Timeout, FrameError) as e:
+        feat.died(part, e, "foldingRange request after incremental changes", sc, sess)
 
 
 def worker(args):
@@ -43,6 +80,7 @@ def worker(args):
                 if it == 0: part.sample({"part": "folding", "text": text[:200], "ranges": got}, 1)
         except (ServerDied, Timeout, FrameError) as e:
             feat.died(part, e, "foldingRange request", sc, sess)
+        if it % 3 == 0: layout_edits(part, sess, P, text, rng)
     for it in range(nhostile):
         text = c02gen.hostile_text(rng)
         sc = {"kind": "wellformed", "text": text}
@@ -66,12 +104,16 @@ def run(ctx):
     ctx.assumptions = ["extents from the generator; line numbering from the LSP model (\\n, \\r\\n)"]
     ctx.floor("evaluations", ctx.evaluations, 1500)
     ctx.floor("documents with expected ranges", ctx.extra.get("counters", {}).get("documents_with_expected_ranges", 0), 500)
+    ctx.floor("documents checked again after layout-only incremental changes", ctx.extra.get("counters", {}).get("documents_after_layout_edits", 0), 100)
 
 
 def replay(ctx, sc):
     part = Part(); sess = feat.Session()
     try:
         uri = sess.open(sc["text"], "c17r_")
+        cur = sc["text"]
+        for i, ch in enumerate(sc.get("changes", [])): sess.server().change(uri, [ch], i + 1); cur = lspmodel.apply_change(cur, ch)
+        sc = dict(sc, text=cur)
         res = sess.result("textDocument/foldingRange", {"textDocument": {"uri": uri}}); part.ev()
         if wellformed(part, res, sc["text"], sc) and "expected" in sc:
             got = [[r["startLine"], r["endLine"]] for r in res]
